@@ -63,8 +63,8 @@ def gen(rnd, tier):
         block = rnd.choice(eligible_blocks(ffname, maxsize))
     peptide = block in aa and rnd.random() < 0.4
     case = {'ff': ffname, 'block': block, 'permute': rnd.random() < 0.6,
-            'scramble': rnd.choice(['none', 'none', 'all', 'hydrogens', 'swap-same-element', 'mirror', 'mirror', 'swap-any']),
-            'remove': rnd.choice([0, 0, 1, 1, 2, 3]), 'remove_mode': rnd.choice(['leaf', 'any', 'bonded-pair']),
+            'scramble': rnd.choice(['none', 'none', 'all', 'hydrogens', 'swap-same-element', 'mirror', 'mirror', 'swap-any', 'same-name']),
+            'remove': rnd.choice([0, 0, 1, 1, 2, 3]), 'remove_mode': rnd.choice(['leaf', 'any', 'bonded-pair', 'all-but-few']),
             'extra': rnd.choice([0, 0, 0, 1, 2]), 'extra_kind': rnd.choice(['H', 'O', 'foreign']),
             'neighbours': [rnd.choice(aa) for _ in range(rnd.randint(1, 3))] if peptide else [],
             'position_in_peptide': rnd.randint(0, 3), 'seed': rnd.randrange(10 ** 9)}
@@ -77,7 +77,10 @@ def gen(rnd, tier):
                      'extra': 0, 'swap_order': rnd.random() < 0.8, 'borrow_fraction': rnd.choice([1.0, 1.0, 0.5, 0.3]),
                      'order_swaps': rnd.choice([0, 0, 1, 2])})
         return case
-    if len(ff.blocks[block]) > 22 and case['scramble'] in ('all', 'swap-same-element', 'swap-any'):
+    if case['scramble'] == 'same-name' and case['remove'] == 0:
+        case['remove'] = 1
+    if len(ff.blocks[block]) > 22 and case['scramble'] in ('all', 'swap-same-element', 'swap-any', 'same-name') and \
+            case['remove_mode'] != 'all-but-few':
         case['scramble'] = 'hydrogens'       # keeps the exponential search within the watchdog most of the time
     return case
 
@@ -100,6 +103,14 @@ def build(case):
         elif case['remove_mode'] == 'bonded-pair' and blk.number_of_edges():
             u, v = rnd.choice(sorted(blk.edges))
             removed = [u, v][:max(2, k)] if len(names) > 2 else [u]
+        elif case['remove_mode'] == 'all-but-few':
+            # only one to three (connected) atoms of the residue are left
+            start = rnd.choice([n for n in names if blk.nodes[n]['element'] != 'H'] or names)
+            keep = [start]
+            for nb in blk.neighbors(start):
+                if len(keep) < rnd.randint(1, 3):
+                    keep.append(nb)
+            removed = [n for n in names if n not in keep]
         else:
             removed = rnd.sample(names, k)
     if case.get('borrow'):
@@ -173,6 +184,11 @@ def build(case):
             for an, n in target.items():
                 if borrow_iso[an] != an and rnd.random() < case.get('borrow_fraction', 1.0):
                     mol.nodes[n]['atomname'] = borrow_iso[an]
+    elif mode == 'same-name':
+        # every atom that is present carries one and the same name (a canonical one or a foreign one)
+        nm = rnd.choice(sorted(target) + ['X'])
+        for an, n in target.items():
+            mol.nodes[n]['atomname'] = nm
     elif mode in ('mirror', 'swap-any'):
         # 'mirror': the names follow an automorphism of the *uncoloured* residue graph that maps some atom onto an atom of another
         # element (HSP ring mirror, N-HN <-> C=O ...): every bond still joins the same pair of names, only the elements
